@@ -425,6 +425,22 @@ impl<const N: usize> Drv<N> {
         ev.i = i;
         ev.j = j;
 
+        // a scenario step that would overwrite a live buffer or view handle is not executable
+        if matches!(op.as_str(), "new" | "default" | "boxed" | "from_array" | "from_iter") && !p.is_null() {
+            self.skipped += 1;
+            return;
+        }
+        if matches!(op.as_str(), "iter" | "iter_mut" | "range" | "range_mut" | "drain" | "into_iter" | "iter_default" | "iter_mut_default") {
+            let v = gi(st, "v", 0);
+            if v >= 0 && (v as usize) < self.views.len() && self.views[v as usize].is_some() {
+                self.skipped += 1;
+                return;
+            }
+        }
+        if op == "clone" && !self.buf(gi(st, "h2", 1)).is_null() {
+            self.skipped += 1;
+            return;
+        }
         // operations that do not need an existing buffer
         match op.as_str() {
             "new" | "default" | "boxed" => {
@@ -1048,6 +1064,10 @@ impl<const N: usize> Drv<N> {
             "v_clone" => {
                 let v2 = gi(st, "v2", v + 1);
                 ev.v2 = v2;
+                if v2 >= 0 && (v2 as usize) < self.views.len() && self.views[v2 as usize].is_some() {
+                    self.skipped += 1;
+                    return;
+                }
                 let slot = self.views[v as usize].as_ref().unwrap();
                 let r = match &slot.view {
                     View::It(it) => call(&mut ev, fault, || View::It(it.clone())),
